@@ -223,26 +223,25 @@ Definition mon_final (fs : list frame) : bool :=
     cacheable result at second c, every request arriving at a second
     <= c + H goes straight to the upstream labelled hitForPass; it is never
     parked and never a hit *)
-Fixpoint mon_hfp (t : Z) (H : Z) (hs : bool) (rd : bool) (mark : option Z) (clean : bool) (prev : list tobs) (fs : list frame) : bool :=
+Fixpoint mon_hfp (t : Z) (H : Z) (hs : bool) (rd : bool) (resident : bool) (owner : option nat)
+         (mark : option Z) (clean : bool) (prev : list tobs) (fs : list frame) : bool :=
   match fs with
   | [] => true
   | f :: r =>
       let t1 := match f_op f with OpTick d => (t + d)%Z | _ => t end in
       let rd1 := match f_op f with OpFaults r0 _ => r0 | _ => rd end in
-      (* the marker survives the loss of the in-memory entry when a store is
-         configured, readable, and holds the hit-for-pass record (C08: markers
-         are persisted under the same rules) *)
-      let persisted := hs && rd1 && match f_store f with SoRec HitForPass _ _ _ => true | _ => false end in
-      let clean1 := clean && match f_op f with
-                             | OpPurge _ | OpCorrupt _ => false
-                             | OpEvict | OpRestart => persisted
-                             | OpFaults r0 _ => r0
-                             | _ => true
-                             end in
       let cur := f_threads f in
+      (* [owner]: the request known to be the fetcher of the key's CURRENT entry
+         (it arrived, looked the entry up in the dispatcher and was labelled
+         fetching); a purge, eviction or restart detaches that entry: its
+         fetcher finishes on the orphan and marks nothing visible to new requests *)
       let released_fetcher :=
         match f_op f with
-        | OpRelease i o => match nth_obs prev i with Some (TUpstream LFetching) => Some o | _ => None end
+        | OpRelease i o =>
+            match owner, nth_obs prev i with
+            | Some j, Some (TUpstream LFetching) => if Nat.eqb i j then Some o else None
+            | _, _ => None
+            end
         | _ => None
         end in
       let mark1 := match released_fetcher with
@@ -250,18 +249,46 @@ Fixpoint mon_hfp (t : Z) (H : Z) (hs : bool) (rd : bool) (mark : option Z) (clea
                    | Some _ => Some ((t1 / 1000) + H)%Z
                    | None => mark
                    end in
+      (* when the entry is not in memory the marker is found again iff a store is
+         configured, readable, and holds the hit-for-pass record (C08: markers
+         are persisted under the same rules) *)
+      let reloadable := hs && rd1 && match f_store f with SoRec HitForPass _ _ _ => true | _ => false end in
+      let is_get_arrival := match f_op f with OpArrive false => true | _ => false end in
+      (* [clean]: nothing happened since the mark was set that may legitimately lose it *)
+      let clean1 := match released_fetcher with
+                    | Some _ => true
+                    | None => clean && match f_op f with
+                                       | OpPurge _ | OpCorrupt _ => false
+                                       | OpArrive false => resident || reloadable
+                                       | _ => true
+                                       end
+                    end in
+      let resident1 := match f_op f with
+                       | OpEvict | OpRestart | OpPurge _ => false
+                       | OpArrive false => true
+                       | _ => match released_fetcher with Some _ => true | None => resident end
+                       end in
+      let owner1 := match f_op f with
+                    | OpEvict | OpRestart | OpPurge _ => None
+                    | OpArrive false =>
+                        match nth_obs cur (length prev) with
+                        | Some (TUpstream LFetching) => Some (length prev)
+                        | _ => owner
+                        end
+                    | _ => match released_fetcher with Some _ => None | None => owner end
+                    end in
       let ok :=
-        match f_op f, mark with
-        | OpArrive false, Some lim =>
-            if clean1 && ((t1 / 1000) <=? lim)%Z
+        match mark with
+        | Some lim =>
+            if is_get_arrival && clean1 && ((t1 / 1000) <=? lim)%Z
             then match nth_obs cur (length prev) with
                  | Some (TUpstream LHitForPass) => true
                  | _ => false
                  end
             else true
-        | _, _ => true
+        | None => true
         end in
-      ok && mon_hfp t1 H hs rd1 mark1 clean1 cur r
+      ok && mon_hfp t1 H hs rd1 resident1 owner1 mark1 clean1 cur r
   end.
 
 (** C18: when a purge (successful delete) is issued while nothing is in flight
@@ -310,14 +337,36 @@ Fixpoint mon_own_answer (prev : list tobs) (fs : list frame) : bool :=
       ok && mon_own_answer cur r
   end.
 
+(** C01 ("every other request waits for that fetch instead of contacting the
+    upstream"): a parked request leaves the queue only when a request that is
+    in the upstream as a fetcher is released — nothing else wakes it *)
+Fixpoint zip_changed (prev cur : list tobs) : bool :=   (* some thread was parked and is not any more *)
+  match prev, cur with
+  | TParked :: p, c :: q => negb (match c with TParked => true | _ => false end) || zip_changed p q
+  | _ :: p, _ :: q => zip_changed p q
+  | _, _ => false
+  end.
+Fixpoint mon_wake (prev : list tobs) (fs : list frame) : bool :=
+  match fs with
+  | [] => true
+  | f :: r =>
+      let cur := f_threads f in
+      let by_fetcher :=
+        match f_op f with
+        | OpRelease i _ => match nth_obs prev i with Some (TUpstream LFetching) => true | _ => false end
+        | _ => false
+        end in
+      (by_fetcher || negb (zip_changed prev cur)) && mon_wake cur r
+  end.
+
 Definition mon_all (c : fl_case) : list bool :=
   let fs := fc_frames c in
   let H := if (fc_hfp c <=? 0)%Z then default_hfp else fc_hfp c in
-  [ mon_c01 1 fs;
+  [ mon_c01 1 fs && mon_wake [] fs;
     mon_final fs;
     mon_lifecycle [] fs;
     mon_fresh (fc_t0 c) [] [] fs;
-    mon_hfp (fc_t0 c) H (fc_store c) true None true [] fs;
+    mon_hfp (fc_t0 c) H (fc_store c) true false None None true [] fs;
     mon_purge false [] fs;
     mon_own_answer [] fs ].
 
